@@ -7,8 +7,8 @@ package pipe
 import (
 	"bytes"
 	"fmt"
-	"runtime"
 	"math/rand"
+	"runtime"
 	"sync"
 	"sync/atomic"
 	"time"
